@@ -30,6 +30,7 @@ RULE = (
     "the cron schedules sent when a listing completes must be exactly the listed ones matching the minute of THAT instant (non-trivial there: the listing crossed a minute boundary). Non-trivial: the instant is within +-1 day of a DST "
     "transition of the zone, or the offset is not a whole number of hours, or the local calendar day differs from the "
     "UTC day; distinct = canonical JSON of the case."
+    " Some entries carry a `time` next to the cron expression (past or future): they stay cron schedules."
 )
 ASSUMPTIONS = [
     "the check process runs with TZ=Asia/Kathmandu (naive datetime.now() returns that wall time) so that dependence on the local zone shows",
@@ -116,7 +117,10 @@ def bias_expr(d: Dict[str, Any]) -> Dict[str, Any]:
             f[k] = (f[k] + "," if f[k] != "*" and not f[k].startswith("*/") else "") + str(vals[k])
         elif d["pin"][k] == 3:
             f[k] = str(RANGES[k][0])          # the lowest value of the field on its own ("0 * * * *", "0 0 * * 0", ...)
-    return {"expr": " ".join(f), "offset": d["offset"], "t_us": d["t_us"], "alt": d["alt"], "via": d["via"]}
+    r = {"expr": " ".join(f), "offset": d["offset"], "t_us": d["t_us"], "alt": d["alt"], "via": d["via"]}
+    if d.get("also_time") is not None and d["via"] == "str":
+        r["also_time"] = d["also_time"]
+    return r
 
 
 def instants() -> Any:
@@ -132,6 +136,8 @@ def instants() -> Any:
         "via": VIA,
         "t_us": st.one_of(t_any, t_dst),
         "alt": st.tuples(st.integers(0, 59), st.integers(0, 999_999)),
+        # the entry also carries a `time` (a label entry / stored schedule with both keys): it stays a cron schedule
+        "also_time": st.sampled_from([None] * 5 + [-86400, -3600, -1, 20, 3600]),
     }).map(bias_expr)
 
 
@@ -152,7 +158,10 @@ def sweeps() -> Any:
         for k in range(5):
             if d["low"][k]:
                 f[k] = str(RANGES[k][0])
-        return {"sweep": True, "expr": " ".join(f), "offset": off, "day_us": day, "sec": d["sec"], "us": d["us"], "via": d["via"]}
+        r = {"sweep": True, "expr": " ".join(f), "offset": off, "day_us": day, "sec": d["sec"], "us": d["us"], "via": d["via"]}
+        if d["also_time"] is not None and d["via"] == "str":
+            r["also_time"] = d["also_time"]
+        return r
 
     return st.fixed_dictionaries({
         "fields": st.tuples(*[field(lo, hi) for lo, hi in RANGES]),
@@ -163,6 +172,7 @@ def sweeps() -> Any:
         "day_us": st.integers(Y0, Y1), "use_dst": st.sampled_from([True, True, False]),
         "k": st.integers(0, 100), "shift": st.sampled_from([-1, 0, 0, 1]),
         "sec": st.integers(0, 59), "us": st.integers(0, 999_999),
+        "also_time": st.sampled_from([None] * 5 + [-3600, 43200]),      # seconds from the start of the swept day
     }).map(fin)
 
 
@@ -192,7 +202,7 @@ def _broker() -> Any:
     return KickBroker(lambda: 0, [0.0], set())
 
 
-def _mk_task(expr: str, off: Optional[Dict[str, Any]], via: str = "str") -> ScheduledTask:
+def _mk_task(expr: str, off: Optional[Dict[str, Any]], via: str = "str", time_us: Optional[int] = None) -> ScheduledTask:
     co: Any = None
     if off is not None:
         co = dtm.timedelta(microseconds=off["td_us"]) if "td_us" in off else off["zone"]
@@ -210,6 +220,8 @@ def _mk_task(expr: str, off: Optional[Dict[str, Any]], via: str = "str") -> Sche
         except StopIteration:
             pass
         return src.added[0]
+    if time_us is not None:
+        return ScheduledTask(task_name="t", labels={}, args=[], kwargs={}, cron=expr, cron_offset=co, time=clock.from_us(time_us))
     return ScheduledTask(task_name="t", labels={}, args=[], kwargs={}, cron=expr, cron_offset=co)
 
 
@@ -252,8 +264,11 @@ def run_case(case: Dict[str, Any]) -> Outcome:
     try:
         expr, off = case["expr"], case["offset"]
         via = case.get("via", "str")
-        task = _mk_task(expr, off, via)
-        how = "" if via == "str" else f" (scheduled with schedule_by_cron(CronSpec(...)), numeric fields as {'int' if via == 'spec_int' else 'str'}; stored cron {task.cron!r})"
+        tus = None
+        if case.get("also_time") is not None:
+            tus = (case["day_us"] if case.get("sweep") else case["t_us"]) + case["also_time"] * 10**6
+        task = _mk_task(expr, off, via, tus)
+        how = (f" (the entry also has time={clock.from_us(tus).isoformat()})" if tus is not None else "") if via == "str" else f" (scheduled with schedule_by_cron(CronSpec(...)), numeric fields as {'int' if via == 'spec_int' else 'str'}; stored cron {task.cron!r})"
         if case.get("sweep"):
             out.clauses_checked = ["C13.a"]
             due = notdue = skipped = 0
